@@ -1055,6 +1055,9 @@ class LangServer:
         def_obj = self.get_definition(file_obj, def_line, def_char)
         if def_obj is None:
             return None
+        # Intrinsics have no qualified name and no references we can search for
+        if isinstance(def_obj, Intrinsic):
+            return None
         # Determine global accessibility and type membership
         restrict_file = None
         type_mem = False
@@ -1171,6 +1174,9 @@ class LangServer:
             return None
         # Intrinsics do not have implementations we can access
         if isinstance(var_obj, Intrinsic):
+            return None
+        # Top-level objects (modules, programs, ...) have no parent
+        if var_obj.parent is None:
             return None
         # Construct implementation reference
         if var_obj.parent.get_type() == CLASS_TYPE_ID:
